@@ -69,9 +69,8 @@ def run(tier):
     for what in ("sound", "clock", "echo"):
         for r in (8, 10, 20, 40):
             scen.append({"mode": "measure", "what": what, "rates": [r], "src": "grid"})
-        if what != "echo":
-            for r1, r2 in ((8, 20), (40, 10), (10, 8)):
-                scen.append({"mode": "measure", "what": what, "rates": [r1, r2], "switch_ms": 1000, "src": "grid-change"})
+        for r1, r2 in ((8, 20), (40, 10), (10, 8)) + (((20, 40), (20, 8)) if what == "echo" else ()):
+            scen.append({"mode": "measure", "what": what, "rates": [r1, r2], "switch_ms": 1000, "src": "grid-change"})
     # hertz: the rise time of a 10 Hz low-pass filter, at one rate and across a change before the step
     for r in (400, 1000, 2000):
         scen.append({"mode": "measure", "what": "filter", "rates": [r], "src": "grid"})
